@@ -58,12 +58,14 @@ def _run_one(exe, args, script_texts, rundir, tag, env, timeout):
         for t in script_texts:
             f.write(t)
     first = 0
+    prog = os.path.join(rundir, "progress-%s.bin" % tag)
     fails, records = [], []
     tot_scripts = tot_steps = 0
     e = dict(os.environ)
     e["ASAN_OPTIONS"] = ASAN_OPTS
     e["LC_ALL"] = "C"
     e.update(env or {})
+    e["VH_PROGRESS"] = prog
     n = len(script_texts)
     restarts = 0
     while first < n:
@@ -104,7 +106,18 @@ def _run_one(exe, args, script_texts, rundir, tag, env, timeout):
         # the process died: find the script
         err = open(errp, "rb").read().decode("latin-1")
         if died is None:
-            raise Broken("harness %s died without a death record (rc=%s); stderr tail:\n%s" % (exe, rc, err[-2000:]))
+            # no C/H/Q line (the process died inside the sanitizer's own report, was killed, ...): use the shared progress record
+            import struct
+            try:
+                raw = open(prog, "rb").read()
+                psid, pstep, pin = struct.unpack_from("lii", raw, 0)
+                pop = raw[16:56].split(b"\0", 1)[0].decode("latin-1")
+            except Exception:
+                psid, pstep, pin, pop = -1, -1, 0, ""
+            if pin and psid >= 0:
+                died = ("C", psid, pstep, pop or "?")
+            else:
+                raise Broken("harness %s died without a death record (rc=%s); stderr tail:\n%s" % (exe, rc, err[-2000:]))
         kind = {"C": "crash", "H": "hang", "Q": "exit"}[died[0]]
         sig = asan_signature(err) if kind == "crash" else (kind, "")
         if kind == "exit" and "atal" in err:
